@@ -1,4 +1,6 @@
 import VrpProofs.Props.C10
+import Mathlib.Tactic.NormNum
+import Mathlib.Tactic.SplitIfs
 /-!
 # C10 (third part): "exactly equal when all coefficients are multiples of 0.01" — in full generality
 
@@ -89,5 +91,27 @@ example (x : ℕ → ℤ) :
   | 0, (j + 2) => exact ⟨0, by simp [applyPattern, matOf]⟩
   | 1, (j + 2) => exact ⟨0, by simp [applyPattern, matOf]⟩
   | (i + 2), j => exact ⟨0, by simp [applyPattern, matOf]⟩
+
+/-- an Ising problem with fractional hundredths: coupling J₀₁ = 0.03, fields 0.25 and -0.5, constant 0.07 -/
+def nvI : Container :=
+  { n := 2, Q := fun _ _ => 0, cq := 0,
+    J := fun i j => if i = 0 ∧ j = 1 then 3 / 100 else 0,
+    h := fun i => if i = 0 then 1 / 4 else if i = 1 then -1 / 2 else 0,
+    ci := 7 / 100 }
+
+example (s : ℕ → ℤ) :
+    ((loadFile nvI.exportIsing).isingEnergy100 s : ℚ) = 100 * evalIsing nvI.n nvI.J nvI.h nvI.ci (fun i => (s i : ℚ)) := by
+  refine load_export_exact_ising nvI (fun i => ?_) (fun i j _ => ?_) (fun i => ?_) ⟨7, by norm_num [nvI]⟩ s
+  · show (if i = 0 ∧ i = 1 then (3 : ℚ) / 100 else 0) = 0
+    rw [if_neg (by omega)]
+  · show Hundredth (if i = 0 ∧ j = 1 then (3 : ℚ) / 100 else 0)
+    split_ifs
+    · exact ⟨3, by norm_num⟩
+    · exact ⟨0, by norm_num⟩
+  · show Hundredth (if i = 0 then (1 : ℚ) / 4 else if i = 1 then -1 / 2 else 0)
+    split_ifs
+    · exact ⟨25, by norm_num⟩
+    · exact ⟨-50, by norm_num⟩
+    · exact ⟨0, by norm_num⟩
 
 end Vrp.C10
